@@ -6,6 +6,7 @@ import (
 	"fmt"
 	"go/types"
 	"sort"
+	"strings"
 
 	"golang.org/x/tools/go/ssa"
 )
@@ -67,6 +68,20 @@ func (x *Exec) loopHeader(st *State, fr *Frame, b *ssa.BasicBlock, prev *ssa.Bas
 	var invs []*Clause
 	if fr.ct != nil {
 		invs = fr.ct.invs[l.ordinal]
+	}
+	if len(invs) == 0 && x.boundK > 0 {
+		// bounded run: at most boundK iterations per entry of this loop
+		if fr.visits == nil {
+			fr.visits = map[*ssa.BasicBlock]int{}
+		}
+		if !l.body[prev] {
+			fr.visits[b] = 0 // entered from outside: iterations are counted per entry
+		}
+		fr.unroll++
+		if fr.unroll > unrollLimit {
+			fail("loop %d of %s does not unroll (no invariant given)", l.ordinal, fr.fn)
+		}
+		return nil, false
 	}
 	if len(invs) == 0 {
 		fr.unroll++
@@ -398,17 +413,15 @@ func (x *Exec) havocLike(st *State, old Value, t types.Type, name string) Value 
 		}
 		return &Tuple{typ: o.typ, el: el}
 	case *SymArr:
-		x.symArrCtr++
-		return &SymArr{elem: o.elem, name: fmt.Sprintf("%s_h%d", o.name, x.symArrCtr)}
+		return &SymArr{elem: o.elem, name: x.havocArrName(o.name)}
 	case *SliceV:
 		// a slice variable assigned in the loop: fresh symbolic contents and length
 		ln := freshVar(name+"$len", SInt)
 		st.axiom(mkLe(mkInt(0), ln))
 		cp := freshVar(name+"$cap", SInt)
 		st.axiom(mkLe(ln, cp))
-		x.symArrCtr++
 		cell := newCell(name, types.NewArray(o.elem, -1))
-		st.store[cell] = &SymArr{elem: o.elem, name: fmt.Sprintf("%s_h%d", sanitize(name), x.symArrCtr)}
+		st.store[cell] = &SymArr{elem: o.elem, name: x.havocArrName(sanitize(name))}
 		nl := freshVar(name+"$isnil", SBool)
 		st.axiom(mkImplies(nl, mkAnd(mkEq(ln, mkInt(0)), mkEq(cp, mkInt(0)))))
 		return &SliceV{cell: cell, off: mkInt(0), len: ln, cap: cp, elem: o.elem, named: o.named, nilT: nl}
@@ -445,4 +458,59 @@ func (x *Exec) frameEnv(fr *Frame) *Env {
 		}
 	}
 	return env
+}
+
+// boundedStay is called in a bounded run when a symbolic branch is forked at
+// block b: if b is an exit test of a loop (one successor leaves the innermost
+// loop containing b), the path that stays in the loop counts one iteration;
+// it reports whether that path is still within the bound.
+func (x *Exec) boundedStay(fr *Frame, b *ssa.BasicBlock, succ int) bool {
+	if x.boundK <= 0 {
+		return true
+	}
+	li := x.loops(fr.fn)
+	// innermost loop containing b: the one with the smallest body
+	var best *loopT
+	var bestH *ssa.BasicBlock
+	for h, l := range li {
+		if l.body[b] && (best == nil || len(l.body) < len(best.body)) {
+			best, bestH = l, h
+		}
+	}
+	if best == nil {
+		return true
+	}
+	in0, in1 := best.body[b.Succs[0]], best.body[b.Succs[1]]
+	if in0 == in1 {
+		return true // not an exit test
+	}
+	if !best.body[b.Succs[succ]] {
+		return true // the leaving path
+	}
+	if fr.visits == nil {
+		fr.visits = map[*ssa.BasicBlock]int{}
+	}
+	fr.visits[bestH]++
+	if fr.visits[bestH] > x.boundK {
+		x.boundHits++
+		return false
+	}
+	return true
+}
+
+// havocArrName names the unknown contents of a havocked array. In a bounded
+// equivalence run the n-th array havocked under a name is the same unknown in
+// both runs (the counters restart with the run); elsewhere a global counter.
+func (x *Exec) havocArrName(base string) string {
+	if x.noModular {
+		if strings.Contains(base, occMarker) {
+			return base + "_e"
+		}
+		k := "symarr$" + base
+		n := freshCtr[k]
+		freshCtr[k] = n + 1
+		return fmt.Sprintf("%s_e%d", base, n)
+	}
+	x.symArrCtr++
+	return fmt.Sprintf("%s_h%d", base, x.symArrCtr)
 }
